@@ -442,7 +442,24 @@ func c05Verify(c *Ctx, verify, adPay, epPay *Fn) {
 		c.Check(g1, "C05.S3-verify-gates", k+" › envelope consumed", epCons.In.Pos(), "continuation dominated by the entry's envelope being consumed without error", "an extended provider is accepted without a verified envelope")
 		_, g2 := has(epEq, true)
 		c.Check(g2, "C05.S3-verify-gates", k+" › payload equal", epCall.In.Pos(), "continuation dominated by bytes.Equal(recomputed, sealed)", "an extended provider is accepted without comparing its sealed payload")
-		b, g3 := has(Bin("==", epSigner, Bind("expect")), true)
+		// (the signer: IDFromPublicKey of the envelope's key, or every value a helper that opens the envelope can
+		// return for it)
+		epSignerAny := func(x *X, bb Binds) bool {
+			if epSigner(x, bb) {
+				return true
+			}
+			ls := c.Leaves(x, p.Instrs[len(p.Instrs)-1]) // (the helper's returns compatible with its error having been nil here)
+			if len(ls) == 0 || (len(ls) == 1 && ls[0] == x) {
+				return false
+			}
+			for _, l := range ls {
+				if !epSigner(l, bb) {
+					return false
+				}
+			}
+			return true
+		}
+		b, g3 := has(Bin("==", epSignerAny, Bind("expect")), true)
 		if !g3 {
 			c.Bad("C05.S3-ep-signer-compared", k+" › signer compared", epCons.In.Pos(), "the key that signed an extended provider's envelope is never compared with the identity the entry names: any key can sign for any provider")
 			continue
@@ -555,7 +572,11 @@ func c05Records(c *Ctx, verify *Fn, adPayFn, epPayFn *ssa.Function) {
 				}
 			}
 		}
-		for _, cs := range c.Calls(f.SSA, Call("record.ConsumeTypedEnvelope")) {
+		if f.SSA != verify.SSA {
+			continue
+		}
+		// (in the verifier's terms, also when consuming is done by a helper shared by both signature kinds)
+		for _, cs := range c.CallsInl(f.SSA, Call("record.ConsumeTypedEnvelope"), 2) {
 			r := cs.X.Args[1]
 			want := "epSignatureRecord"
 			if _, m := Match(Field("Signature", Op("param", "")), cs.X.Args[0]); m {
